@@ -465,7 +465,22 @@ func exhaustiveC10(maxLen int) func(yield func(c c10Case) bool) {
 			}
 			return true
 		}
-		rec(nil, maxLen)
+		if !rec(nil, maxLen) {
+			return
+		}
+		// paging matrix: every predicate x sort x skip x limit boundary combination is evaluated over every dataset
+		for _, pred := range []string{"true", "false", `sa = "a"`, "ia > 1", "sa = null", "isEmpty(roles)", `anyOf(roles) = "a"`} {
+			for _, srt := range []string{"", "sort by sa", "sort by sa desc", "sort by ia, sa desc", "sort by ba, fa, ta", "sort by id desc"} {
+				for _, skip := range []string{"", "skip 0", "skip 1", "skip -1", "skip 100", "skip 9223372036854775807"} {
+					for _, limit := range []string{"", "limit none", "limit 0", "limit 1", "limit -1", "limit 9223372036854775807"} {
+						text := strings.Join(strings.Fields(pred+" "+srt+" "+skip+" "+limit), " ")
+						if !yield(c10Case{Kind: "paging", Text: text}) {
+							return
+						}
+					}
+				}
+			}
+		}
 	}
 }
 
